@@ -33,7 +33,7 @@ IU = 'utils.iter_utils'
 
 
 def run(ctx: Ctx):
-  for r in (r1, r2, r3, r4, r6, r10, r11, r12, r13, r14, r15, r16, r17):
+  for r in (r1, r2, r3, r4, r6, r10, r11, r12, r13, r14, r15, r16, r17, r18):
     ctx.guard(r)
   from mlmverif.props import c04
   from mlmverif.props._queue import model as qmodel
@@ -912,10 +912,47 @@ def r17(ctx: Ctx):
   ctx.floor(rule, 1, 1)
 
 
+def r18(ctx: Ctx):
+  rule = 'R-C13-18'
+  ctx.rule(rule, '"produces exactly the multiset of values the sequential evaluation produces", also with several streams alive at'
+           ' once: the per-stream bookkeeping of the queue / iterator classes of iter_utils (stop links, buffers, counters)'
+           ' belongs to the INSTANCE. No class body of the module binds a mutable container (`x: list = []`, `{}`, `set()`,'
+           ' deque(), defaultdict()) as a class attribute: every instance would append to the one shared object — one'
+           ' stream ending then stops the input queues of every other live stream, which end early without an error')
+  mi = ctx.repo.module('utils.iter_utils')
+  n = 0
+  for ci in mi.classes.values():
+    if any('dataclass' in unparse(d) for d in ci.node.decorator_list) or not ci.methods:
+      continue
+    n += 1
+    bad = None
+    for st in ci.node.body:
+      v = st.value if isinstance(st, (ast.Assign, ast.AnnAssign)) else None
+      if v is None:
+        continue
+      if isinstance(v, (ast.List, ast.Dict, ast.Set, ast.ListComp, ast.DictComp, ast.SetComp)) or (
+          isinstance(v, ast.Call) and unparse(v.func).split('.')[-1] in ('list', 'dict', 'set', 'deque', 'defaultdict', 'OrderedDict',
+                                                                        'Counter')):
+        bad = st
+        break
+    what = f'{ci.name}: no mutable container is shared through a class attribute'
+    anchor = next(iter(ci.methods.values()))
+    if bad is not None:
+      ctx.fail(rule, anchor, what,
+               f'`{unparse(bad)[:70]}` in the body of {ci.name} is ONE object for all instances: what an instance appends (a'
+               ' stop link, a buffered element) is seen and acted on by every other live instance', node=bad)
+    else:
+      ctx.ok(rule, anchor, what, ci.node)
+  ctx.floor(rule, 8, n)
+
+
 from mlmverif.selfcheck import B, OK  # noqa: E402
 
 _F = 'utils/iter_utils.py'
 VARIANTS = [
+    B('stop-links-in-a-class-attribute', 'utils/iter_utils.py',
+      "  ignore_error: bool\n\n  def __init__(\n", "  ignore_error: bool\n  _stopped_with: list[types.Stoppable] = []\n\n  def __init__(\n", 'R-C13-18',
+      extra=(('utils/iter_utils.py', "    self._stopped_with: list[types.Stoppable] = []\n", ""),)),
     B('revert-shared-iterator-relays-the-end-to-every-worker', 'utils/iter_utils.py',
       "      if self._exhausted:\n        raise StopIteration()\n      try:\n        return next(self._iterator)\n      except StopIteration:\n        # Only one of the threads sharing the iterator relays its return\n        # values, a queue raises them again at every call.\n        self._exhausted = True\n        raise\n",
       "      return next(self._iterator)\n", 'R-C13-17'),
